@@ -108,6 +108,53 @@ func (w *World) buildVC(fn *ssa.Function) *VC {
 		fr.vals[fv] = fr.havoc(fv.Type(), "fv_"+fv.Name())
 	}
 	w.globalAssumptions(vc, fr)
+	if len(w.secrets) > 0 && w.taintRoots[shortFuncName(fn.String())] {
+		// information-flow mode: a ghost taint map over bytes; for functions of
+		// other receivers it is arbitrary and constrained by their preconditions
+		vc.taint = true
+		rememberLeaf(taintLeaf)
+		vc.declared["G_taint_0"] = true
+		vc.decls = append(vc.decls, "(declare-const G_taint_0 (Array Int Bool))")
+	}
+	if vc.taint && !(fn.Signature.Recv() != nil && typeStr(fn.Params[0].Type()) == w.secretRecv) {
+		// abstract secrets: arbitrary, except that constants (static data) are never secret
+		vc.naxiom++
+		ax := &axiomRec{id: vc.naxiom, born: len(vc.items), old: "", inst: func(idx string) (string, []string) {
+			return imp(lt(idx, intLit(staticEnd)), not(sel("G_taint_0", idx))), nil
+		}}
+		vc.axioms["G_taint"] = append(vc.axioms["G_taint"], ax)
+		vc.axiomOf["G_taint_0"] = ax
+		vc.assume(fmt.Sprintf("(forall ((a Int)) (! (=> (< a %d) (not (select G_taint_0 a))) :pattern ((select G_taint_0 a))))", staticEnd))
+	}
+	if vc.taint && fn.Signature.Recv() != nil && typeStr(fn.Params[0].Type()) == w.secretRecv {
+		// the bytes of the named byte slices are the secrets
+		var regions [][2]string
+		for _, src := range w.secrets {
+			n, err := parseSpec(src)
+			if err != nil {
+				fatal("secret %q: %v", src, err)
+			}
+			v := fr.evalNode(n, fr.params, st, st)
+			if v == nil || len(v.L) < 2 {
+				fatal("secret %q is not a byte slice (%v)", src, vc.unsup)
+			}
+			regions = append(regions, [2]string{v.L[0], add(v.L[0], v.L[1])})
+		}
+		inRegion := func(idx string) string {
+			var cs []string
+			for _, r := range regions {
+				cs = append(cs, and(le(r[0], idx), lt(idx, r[1])))
+			}
+			return or(cs...)
+		}
+		vc.naxiom++
+		ax := &axiomRec{id: vc.naxiom, born: len(vc.items), old: "", inst: func(idx string) (string, []string) {
+			return eq(sel("G_taint_0", idx), inRegion(idx)), nil
+		}}
+		vc.axioms["G_taint"] = append(vc.axioms["G_taint"], ax)
+		vc.axiomOf["G_taint_0"] = ax
+		vc.assume(fmt.Sprintf("(forall ((a Int)) (! (= (select G_taint_0 a) %s) :pattern ((select G_taint_0 a))))", inRegion("a")))
+	}
 	if c := fr.contract; c != nil {
 		vc.curLets = c.Lets
 		for _, r := range c.Requires {
@@ -306,6 +353,17 @@ func main() {
 		w := loadWorld()
 		if p := os.Getenv("MQVC_PROP"); p != "" {
 			w.prop = p
+			if spec := propSpecs[p]; spec != nil {
+				w.secrets, w.secretRecv = spec.Secrets, spec.SecretRecv
+				w.taintRoots = map[string]bool{}
+				for _, r := range spec.Roots {
+					w.taintRoots[r] = true
+				}
+				w.forceInline = map[string]bool{}
+				for _, f := range spec.ForceInline {
+					w.forceInline[f] = true
+				}
+			}
 		}
 		vc := w.buildVC(w.funcs[os.Args[2]])
 		for _, ob := range vc.obligations() {
